@@ -93,6 +93,7 @@ package multicast
 //@ func (*Service).onMulticast
 //@   property C38 C37:safety
 //@   requires s != nil && stream != nil && s.logger != nil && cache != nil && cache.localAdapter != nil
+//@   callassert Adapter.SetIfNotExist remembered-for-the-whole-window: $duration == multicastMsgCache
 //@   callassert Group.notifyMulticast delivered-once-per-key: setOK && !(origin == s.self)
 //@   callassert Service.Multicast forwarded-once-per-key: setOK && !(origin == s.self)
 //@   callassert Service.notifyLogContent logged-once-per-key: setOK && !(origin == s.self)
